@@ -696,6 +696,8 @@ func spinnerFullQueue(vx *vaxis.Vaxis, sp *spinner.Model, res *Result) *Result {
 	}
 	got := make(chan int, 1)
 	quit := make(chan struct{})
+	pd := make(chan struct{}) // the producers' posts have all returned
+	go func() { wg.Wait(); close(pd) }()
 	var progress atomic.Int64
 	go func() { // the application's loop (it may get stuck: it is not the goroutine that judges)
 		n := 0
@@ -712,6 +714,20 @@ func spinnerFullQueue(vx *vaxis.Vaxis, sp *spinner.Model, res *Result) *Result {
 				sp.Draw(vx.Window())
 				vx.Render()
 				progress.Add(1)
+			case <-pd:
+				// nothing more is coming: what is queued still counts, then the loop ends (a library that
+				// loses blocking posts must not keep this loop waiting for them beside a ticking spinner)
+				for {
+					select {
+					case ev := <-vx.Events():
+						if _, ok := ev.(pev); ok {
+							n++
+						}
+					default:
+						got <- n
+						return
+					}
+				}
 			case <-quit:
 				got <- n
 				return
@@ -724,7 +740,9 @@ func spinnerFullQueue(vx *vaxis.Vaxis, sp *spinner.Model, res *Result) *Result {
 wait:
 	for {
 		select {
-		case <-got:
+		case n := <-got:
+			// every post was a blocking one, made while Vaxis was open
+			res.BSent, res.BGot = append(res.BSent, producers*each), append(res.BGot, n)
 			break wait
 		case <-time.After(100 * time.Millisecond):
 			if p := progress.Load(); p != last {
@@ -739,8 +757,6 @@ wait:
 	}
 	close(quit)
 	call("Close", vx.Close, res)
-	pd := make(chan struct{})
-	go func() { wg.Wait(); close(pd) }()
 	select {
 	case <-pd:
 	case <-time.After(2 * time.Second):
